@@ -35,6 +35,18 @@ def scale_derived(expr: ast.expr, f, depth: int = 0, P=None) -> bool:
         if m is not None:
             rets = [r for r in ast.walk(m.node) if isinstance(r, ast.Return) and r.value is not None and norm(r.value) != "None"]
             return bool(rets) and all(scale_derived(r.value, m, depth + 1, P) for r in rets)
+    if P is not None and isinstance(expr, ast.Attribute) and norm(expr.value) == "self" and f.cls is not None and depth < 3:
+        m = P.lookup_method(f.cls.qname, expr.attr)
+        if m is not None and "property" in m.decorators():
+            rets = [r for r in ast.walk(m.node) if isinstance(r, ast.Return) and r.value is not None and norm(r.value) != "None"]
+            return bool(rets) and all(scale_derived(r.value, m, depth + 1, P) for r in rets)
+    if isinstance(expr, ast.Name) and expr.id in getattr(f, "params", []) and P is not None and f.cls is not None and depth < 3:
+        # a parameter: every same-class call site passes a scale-derived value
+        sites = [(m, c) for m in f.cls.methods.values() for c in ast.walk(m.node)
+                 if isinstance(c, ast.Call) and isinstance(c.func, ast.Attribute) and c.func.attr == f.name and norm(c.func.value) == "self"]
+        idx = f.params.index(expr.id) - 1
+        vals = [(m, c.args[idx] if idx < len(c.args) else next((k.value for k in c.keywords if k.arg == expr.id), None)) for m, c in sites]
+        return bool(vals) and all(v is not None and scale_derived(v, m, depth + 1, P) for m, v in vals)
     if isinstance(expr, ast.Name):
         defs = [s for s in ast.walk(f.node) if isinstance(s, ast.Assign) and any(isinstance(t, ast.Name) and t.id == expr.id for t in s.targets)]
         return bool(defs) and all(scale_derived(d.value, f, depth + 1, P) for d in defs) if depth < 3 else False
@@ -70,8 +82,17 @@ def run(P: Program, R: Report, tier: str) -> None:
     km, kc = kernel
     sp = next(k.value for k in kc.keywords if k.arg == "spacing")
     callers = [(m, c) for m in ann.methods.values() for c in calls_to(m, km.name)]
-    R.floor("R08.3", "kernel call sites", len(callers), 2)
-    entry = {m.name for m, _ in callers}
+    # methods from which the kernel's holder is reachable through calls on self
+    reach = {km.name}
+    changed = True
+    while changed:
+        changed = False
+        for m in ann.methods.values():
+            if m.name not in reach and any(calls_to(m, r) for r in list(reach)):
+                reach.add(m.name)
+                changed = True
+    R.floor("R08.3", "methods reaching the kernel", len(reach), 3)
+    entry = reach
     R.check({"compute", "update"} <= entry, "R08.3", km, km.node, "bulk (compute) and incremental (update) paths reach the same kernel",
             f"kernel {km.name} is called from {sorted(entry)}", via="call-graph")
     if isinstance(sp, ast.Name) and sp.id in km.params:
@@ -98,7 +119,19 @@ def run(P: Program, R: Report, tier: str) -> None:
                 found.append((m, c, rs.text(cmp_.left), rs.text(cmp_.comparators[0]), rs.text(c.args[1]), rs.text(c.args[2])))
     if not found:
         R.undecided("R08.3", ann.methods["update"], ann.node, "the incremental path masks the node's frame with np.where", "no np.where(frame == node, node, 0) found")
+    expanded = []
     for m, c, left, right, keep, other in found:
+        params = [p_ for p_ in m.params if p_ not in ("self", "cls")]
+        if params and left in params and right in params:
+            # the mask lives in a helper(frame, label): look at what its callers pass
+            for m2 in ann.methods.values():
+                rs2 = Resolver(P, m2)
+                for c2 in calls_to(m2, m.name):
+                    argmap = {p_: rs2.text(a_) for p_, a_ in zip(params, c2.args, strict=False)}
+                    expanded.append((m2, c2, argmap.get(left, left), argmap.get(right, right), argmap.get(keep, keep), other))
+        else:
+            expanded.append((m, c, left, right, keep, other))
+    for m, c, left, right, keep, other in expanded:
         node_txt = right
         good = ("segmentation[" in left and f"get_time({node_txt})" in left and keep == node_txt and other == "0") or (
             "segmentation[" in left and "get_time(action.node)" in left and right == "action.node")
